@@ -32,7 +32,7 @@ EXCL = json.load(open(os.path.join(os.path.dirname(os.path.abspath(__file__)), "
 
 WORDS = [b"a", b"b1", b"x_y", b"int", b"0", b"12", b"0x1F", b"1e", b"$d", b"_", b"if", b"9z"]
 OPS = [bytes([c]) for c in b"+-*/%=<>!&|^~?:;,.()[]{}@`"]
-SEPS = [b"", b"", b" ", b"  ", b"\t", b"\n", b"\r\n", b"\f", b"\v", b" \n ", b"/* c */", b"/**/", b"/* a\n b */", b"// c\n", b"//\r\n",
+SEPS = [b"", b"", b" ", b"  ", b"\t", b"\n", b"\r\n", b"\r", b"\r\r\n", b"\f", b"\v", b" \n ", b"/* c */", b"/**/", b"/* a\n b */", b"// c\n", b"//\r\n",
         b"\\\n", b"\\ \n", b"\x01", b"/*/ */", b"/* * / */"]
 
 
@@ -231,7 +231,7 @@ def check(run, replay):
             if d:
                 d["origin"] = origin
                 found[(fam, tuple(d["ids"]))].append(d)
-    # the two known layout defects have families of their own (kept out of the families above)
+    # the two layout defects repaired by /repo 9966aa3 and 5b5c259 stay as regression families
     kn = []
     base = "#include <stdlib.h>\nint f0(int x) { int y = 100 / x; if (x == 0) return 13; return y; }\n"
     tb = RW.tokenize(base)
